@@ -17,7 +17,7 @@ REPORTED    from the NULL edge of every tested acquisition only failure returns
 """
 import re
 from .. import cdb, ir, report, own
-from ..ir import norm, show, root_var
+from ..ir import norm, show, root_var, subterms
 from ..dataflow import cond_atoms
 
 CONTAINER_UNITS = ["datastruct/elasticarray.c", "datastruct/elasticqueue.c", "datastruct/ptrheap.c",
@@ -43,13 +43,112 @@ INFALLIBLE_EXCEPTIONS = {
 }
 
 
-def double_free_rule(prog, rep, only_files=None):
+DESTROY_UNITS = ("events/events_timer.c", "events/events_immediate.c", "events/events_network.c", "datastruct/timerqueue.c", "datastruct/ptrheap.c",
+                 "netbuf/netbuf_read.c", "netbuf/netbuf_write.c", "network/network_read.c", "network/network_write.c")
+DESTROY_EXCEPTIONS = {("poke", "free"): "an empty queued buffer is discarded for good, whatever the launch of the next one then does"}
+
+
+def destroy_then_fail_rule(prog, rep, only_files=None):
+    """A failed operation leaves the objects it was given as they were: no path on which an operation releases, deletes or
+    cancels something that existed before the call (reached through a parameter or a global, not acquired in the call) goes
+    on to a failure return.  (Delete-then-re-add is not an update: if the re-add cannot allocate, the entry is gone and the
+    caller is told the operation did not happen.)"""
+    n = 0
+    for up in (only_files or DESTROY_UNITS):
+        if up not in prog.units:
+            continue
+        u = prog.unit(up)
+        for f in u.funcs:
+            if f.file != up:
+                continue
+            fails = [r for r in f.returns() if own.is_failure_return(r)]
+            if not fails:
+                continue
+            locs = set()
+            for e in f.all_elems():
+                if e.cls == "DeclStmt":
+                    for d in e.decls or []:
+                        if d.get("kind") == "local":
+                            locs.add(d["id"])
+            pre = set(p["id"] for p in f.params)
+            acquired = set()
+            for e in f.all_elems():
+                if e.is_assign and e.op == "=":
+                    rs = e.kid(1).strip() if e.kid(1) is not None else None
+                    while rs is not None and rs.cls == "BinaryOperator" and rs.op == "=":
+                        acquired.add(norm(rs.kid(0))) if (rs.kid(1).strip() is not None and rs.kid(1).strip().cls == "CallExpr") else None
+                        rs = rs.kid(1).strip()
+                    if rs is not None and rs.cls == "CallExpr":
+                        acquired.add(norm(e.kid(0)))
+                    elif norm(e.kid(0))[0] == "v":
+                        r = root_var(norm(e.kid(1)))
+                        if r is not None and r[2] in pre:
+                            pre.add(norm(e.kid(0))[2])
+                if e.cls == "DeclStmt":
+                    for d in e.decls or []:
+                        if d.get("init"):
+                            ie = f.elem(d["init"]).strip()
+                            r = root_var(norm(f.elem(d["init"])))
+                            if r is not None and r[2] in pre and not (ie is not None and ie.cls == "CallExpr"):
+                                pre.add(d["id"])
+            for c in f.calls():
+                if not (c.callee and (own.GENERIC_RELEASERS.search(c.callee) or c.callee.endswith("_delete") or c.callee.endswith("_deletemin"))):
+                    continue
+                n += 1
+                args = [norm(a) for a in c.args if a is not None]
+                old = [a for a in args if a not in acquired and root_var(a) is not None and (root_var(a)[2] in pre or root_var(a)[2] not in locs)
+                       and not any(a == q or any(t == q for t in subterms(a)) for q in acquired)]
+                reach = f.reach_from(c.block.id) | {c.block.id}
+                hit = [r for r in fails if r.block.id in reach]
+                if old and hit:
+                    key = (f.name, c.callee)
+                    if key in DESTROY_EXCEPTIONS:
+                        rep.unknown("ATOMIC", "%s in %s" % (c.text[:50], f.name), c.where, "frozen exception: " + DESTROY_EXCEPTIONS[key])
+                        continue
+                    rep.bad("ATOMIC", "%s in %s" % (c.text[:50], f.name), c.where,
+                            "%s existed before the call and is released here, yet the failure return at %s is reachable afterwards: the operation reports that it "
+                            "did not happen after it has destroyed what it was given" % (show(old[0]), hit[0].loc), function=f.name, construct="destroy-then-fail:" + c.callee)
+    return n
+
+
+def realloc_nonzero_rule(prog, rep, only_files=None):
+    """realloc is never asked for zero bytes: what realloc(p, 0) does is implementation-defined -- glibc frees p and answers
+    NULL, which the callers read as "allocation failed, p still valid" -- so every size handed to realloc is provably >= 1
+    where the call is made (sa/poly.py; the library's own special cases for an emptied array are what establishes it)."""
+    from .. import poly
+    from ..poly import Lin
+    n = 0
+    for f in prog.all_funcs():
+        if only_files is not None and f.file not in only_files:
+            continue
+        cs = list(f.calls("realloc"))
+        if not cs:
+            continue
+        try:
+            A = poly.Analysis(f, quiet={"realloc", "free", "memcpy", "memmove", "memset"}).run()
+        except cdb.AnalysisBroken:
+            raise
+        for c in cs:
+            n += 1
+            st = A.state_before(c)
+            if st is None:
+                rep.ok("REALLOC-nonzero", "%s in %s" % (c.text[:50], f.name), c.where, "unreachable")
+                continue
+            sz = A.lin(c.arg(1), st)
+            ok = sz is not None and A.holds(st, ">=", sz, Lin.const(1))
+            rep.check(ok, "REALLOC-nonzero", "%s in %s" % (c.text[:50], f.name), c.where,
+                      "the size (%s) is not shown to be at least 1 here: realloc(p, 0) may free p and answer NULL, which this code takes for a failed "
+                      "allocation that left p alone" % (sz if sz is not None else show(norm(c.arg(1)))), function=f.name, construct="realloc-zero")
+    return n
+
+
+def double_free_rule(prog, rep, only_files=None, alloc_only=True):
     """No object is released twice: inside one function (a release of a path released earlier on some way there, nothing
     assigned to it in between), and across a failed call -- a callee that releases an argument on its own failure paths
     while its caller, finding that the call failed, releases the same argument."""
     # this property quantifies over allocation failures: a second release counts when the way to it has passed the failure edge
     # of an operation that can fail for lack of memory (other double releases are outside its scope and are not reported here)
-    D = own.DoubleFree(prog, alloc_only=True)
+    D = own.DoubleFree(prog, alloc_only=alloc_only)
     n = 0
     for f in prog.all_funcs():
         if only_files is not None and f.file not in only_files:
@@ -65,8 +164,16 @@ def double_free_rule(prog, rep, only_files=None):
             rep.bad("DOUBLE-FREE", "%s in %s" % (e.text[:50], f.name), e.where,
                     "%s was already %s at %s on a path that reaches this release with nothing assigned to it in between" % (show(p), how, first.loc),
                     function=f.name, construct="double-free:" + show(p))
-        if k and not seen:
-            rep.ok("DOUBLE-FREE", "%s: %d releases" % (f.name, k), f.loc, "none of them releases a path already released on the way")
+        useen = set()
+        for e, p, first in D.uses:
+            if e.pos in useen:
+                continue
+            useen.add(e.pos)
+            rep.bad("USE-AFTER-FREE", "%s in %s" % (e.text[:50], f.name), e.where,
+                    "%s was released at %s on a path that reaches this use with nothing assigned to it in between" % (show(p), first.loc),
+                    function=f.name, construct="use-after-free:" + show(p))
+        if k and not seen and not useen:
+            rep.ok("DOUBLE-FREE", "%s: %d releases" % (f.name, k), f.loc, "none of them releases a path already released on the way, and no released pointer is used again")
     return n
 
 
@@ -411,10 +518,22 @@ def run(tier):
         reserve_flag_rule(prog, rep)
         infallible_rule(prog, rep)
         reported_rule(prog, rep)
+        if destroy_then_fail_rule(prog, rep) < 20:
+            rep.defer_broken("ATOMIC: fewer than 20 release/delete calls found in the event, timer and I/O units")
+        if realloc_nonzero_rule(prog, rep) < 4:
+            rep.defer_broken("REALLOC-nonzero: fewer than 4 realloc calls found in the library")
         if double_free_rule(prog, rep) < 100:
             rep.defer_broken("DOUBLE-FREE: fewer than 100 release calls found in the library")
         from . import c07
         c07.orphan_rule(prog, rep)     # a queue-resident buffer must not be orphaned when launching its write fails
+        # "the operation reports failure through its documented return value": an asynchronous read or write reports through its
+        # callback -- a registration that cannot be renewed (it allocates) ends the request with one callback carrying -1, never
+        # silently (callback linearity and the re-arm rule of the two transport units, shared with C06)
+        from . import c06
+        for up in ("network/network_read.c", "network/network_write.c"):
+            rec, rel, ctor, cancel = c06.UNITS[up]
+            L6, kinds = c06.lin_rule(prog, rep, up, rec, rel)
+            c06.n2_n3(prog, rep, up, L6)
     rep.notes.append("acquirers discovered from the program: " + ", ".join(sorted(set(acq) - set(own.LIBC_ACQ))))
     n = len(configs)
     rep.require_min("LEAK", 180 * n)
